@@ -185,6 +185,18 @@ class SemScn:
                     err = "EOF"
                 want_line = first_line + [k for k, l in enumerate(src_lines) if f'ValueError("stmt{i}' in l][0]
                 res[f"raise-{i}"] = (items, err, want_line, inspect.getsourcefile(F.raises_at))
+            # --- the raising line is named however deep the call chain is --
+            dl, dfirst = inspect.getsourcelines(F.deep_raise)
+            dline = dfirst + [k for k, l in enumerate(dl) if "MARK-DEEP" in l][0]
+            deep = []
+            for depth in (0, 5, 45, 200):
+                ch = gw.remote_exec(F.deep_raise, depth=depth)
+                try:
+                    ch.waitclose(10)
+                    deep.append((depth, "no error"))
+                except ch.RemoteError as e:
+                    deep.append((depth, f'line {dline}, in down' in str(e) and "LookupError: deep-raise" in str(e)))
+            res["deep-raise"] = deep
             # --- close from inside is refused ------------------------------
             ch = gw.remote_exec(F.close_inside)
             res["close-inside"] = ch.receive(timeout=10)
@@ -275,6 +287,9 @@ class SemScn:
                 return V("function-semantics", f"raise at statement {i}: items {items}, expected {want_items}")
             if err in (None, "EOF") or f"stmt{i}" not in err or f'"{fname}", line {want_line}' not in err:
                 return V("traceback-line", f"function raising at its statement {i}: traceback must name {fname} line {want_line}: {err}")
+        for depth, ok in r["deep-raise"]:
+            if ok is not True:
+                return V("traceback-line", f"a function raising {depth} calls deep: the RemoteError does not name the raising line ({ok})")
         ci = r["close-inside"]
         if not (isinstance(ci, tuple) and ci[0] == "refused"):
             return V("close-inside", f"channel.close() from inside remote_exec was not refused: {ci}")
